@@ -10,7 +10,7 @@ EXPLANATION = (
     "DashMap::entry with the Occupied arm refusing (no blind insert/remove anywhere); Udp::demux / Ipv4::demux look the "
     "exact (destination address, destination port | protocol) key up first and the wildcard key only on the miss arm, "
     "hand the datagram to the binding found, strip exactly the codec's header length, attach the true source, and "
-    "return MissingSession without any upward call when nothing is bound. Decides these clauses for all inputs and "
+    "return MissingSession without any upward call when nothing is bound; (U-KEY) the binding and session tables are keyed by the endpoint value(s) themselves with derived Eq/Hash (a computed key is reported: nothing shows it injective). Decides these clauses for all inputs and "
     "arrival orders; payload equality end-to-end and multi-machine delivery are not decided.")
 ASSUMPTIONS = ["DashMap::entry is atomic per key"]
 
